@@ -134,6 +134,9 @@ def run(ctx):
             rep.sample('periodic: shells in %s, zero=false' % sorted(set(sh)))
         # ---- R5 prefilter ---------------------------------------------------------------------------
         _prefilter(ctx, pl, per)
+    # ---- R7 known hard instances of the shell heuristic ---------------------------------------------------
+    if per is not None:
+        _shell_witnesses(ctx, pl, per)
     # ---- R6 the radius used by the prefilter really encloses the shape ---------------------------------
     _enclosing(ctx)
     # ---- FRAME ------------------------------------------------------------------------------------
@@ -278,3 +281,74 @@ def _enclosing(ctx):
                   'the radius the prefilter relies on does not bound the shape: %s — pairs whose circumcircles overlap are skipped '
                   'although the shapes can overlap' % why)
     rep.floor('R6', 'hard shapes with a checked enclosing radius', k, 2)
+
+
+# Cells for which geometry REQUIRES at least `min_shells` neighbouring shells (each confirmed against an exhaustive
+# 7-shell lattice oracle on the real code; see seeded/C01-r1-shell-heuristic-abs/).  a, b = cell sides, angle in radians.
+SHELL_WITNESSES = [
+    {'name': 'skewed-30deg-p1.9', 'a': 3.2, 'b': 3.2 / 1.9, 'angle': 0.5235987755982988, 'min_shells': 2,
+     'why': 'p1 unit squares rotated 9.5 deg in the cell a=3.2, b=a/1.9, angle=pi/6 overlap with the lattice image (1,-2)'},
+]
+
+
+def _shell_witnesses(ctx, pl, per):
+    """Static evaluation of the lifted shell-count decision (comparisons over a(), b(), angle()) at witness cells."""
+    rep, f = ctx.rep, ctx.facts
+    from fractions import Fraction
+    from ..celltables import eval_num
+    b, cfg, tr = pl.b, pl.cfg, pl.tr
+    sh = tr.origin(per['d2']['src']['term']['args'][2])
+    if sh['o'] != 'local':
+        rep.note('R7: the shells argument is not a multi-definition local; witness evaluation skipped')
+        return
+    S = sh['l']
+    defs = {d[0]: const_value(d[3]['a']) for d in tr.defs.of(S) if d[2] == 'assign' and d[3]['r'] == 'use' and d[3]['a'].get('k') == 'const'}
+
+    def leaf(o):
+        if o['o'] == 'call':
+            nm = callee_name(o['term']) or ''
+            recv = tr.origin(o['term']['args'][0]) if o['term']['args'] else {'p': []}
+            if field_path(recv.get('p', []))[-1:] == ['cell']:
+                for k in ('a', 'b', 'angle'):
+                    if nm.endswith('Cell2::' + k):
+                        return SYM(k)
+        return None
+    for w in SHELL_WITNESSES:
+        env = {'a': Fraction(w['a']), 'b': Fraction(w['b']), 'angle': Fraction(w['angle'])}
+        bb = 0
+        got = None
+        why = ''
+        for _ in range(200):
+            if bb in defs:
+                got = defs[bb]
+                break
+            t = b.blocks[bb]['term']
+            if t['t'] == 'switch':
+                e = lift(tr, t['discr'], leaf)
+                try:
+                    v = eval_num(e, env) if e is not None else None
+                except (KeyError, ValueError):
+                    v = None
+                if v is None:
+                    why = 'a decision at bb%d is not a comparison over a(), b(), angle()' % bb
+                    break
+                iv = 1 if v is True else 0 if v is False else int(v)
+                nxt = t['otherwise']
+                for val, tgt in t['arms']:
+                    if int(val) == iv:
+                        nxt = tgt
+                bb = nxt
+            elif t['t'] in ('goto', 'call', 'drop', 'assert') and t.get('target') is not None:
+                bb = t['target']
+            else:
+                why = 'decision walk left the shell-count prefix at bb%d' % bb
+                break
+        if got is None:
+            rep.fail('R7', 'shell-witness:%s' % w['name'], where(b), 'cannot evaluate the shell-count decision statically: %s' % why,
+                     'undecidable-shape')
+            continue
+        rep.check(isinstance(got, int) and got >= w['min_shells'], 'R7', 'shell-witness:%s' % w['name'], where(b, per['bb']),
+                  'cell (a=%.3g, b=%.3g, angle=%.4g) gets %s shells >= %d required' % (w['a'], w['b'], w['angle'], got, w['min_shells']),
+                  'the shell heuristic searches only %s shell(s) for the cell a=%.3g, b=%.3g, angle=%.4g rad, but %s: at least %d are '
+                  'needed, the overlap is missed and the state gets a score' % (got, w['a'], w['b'], w['angle'], w['why'], w['min_shells']))
+        rep.sample('shell heuristic at witness %s -> %s shells (>= %d required)' % (w['name'], got, w['min_shells']))
